@@ -374,28 +374,19 @@ func (c *CharSet) prepareASCIIBitmap() {
 }
 
 func (c *CharSet) charInCategories(ch rune) bool {
+	// the categories of a class are a union: a character is in when it is in a
+	// positive category or outside a negated one
 	for _, ct := range c.categories {
 		// special categories...then unicode
 		if ct.Cat == SpaceCategoryText {
-			if unicode.IsSpace(ch) {
-				// we found a space so we're done
-				// negate means this is a "bad" thing
-				return !ct.Negate
-			} else if ct.Negate {
+			if unicode.IsSpace(ch) != ct.Negate {
 				return true
 			}
 		} else if ct.Cat == WordCategoryText {
-			if IsWordChar(ch) {
-				return !ct.Negate
-			} else if ct.Negate {
+			if IsWordChar(ch) != ct.Negate {
 				return true
 			}
-		} else if unicode.Is(unicodeCategories[ct.Cat], ch) {
-			// if we're in this unicode category then we're done
-			// if negate=true on this category then we "failed" our test
-			// otherwise we're good that we found it
-			return !ct.Negate
-		} else if ct.Negate {
+		} else if unicode.Is(unicodeCategories[ct.Cat], ch) != ct.Negate {
 			return true
 		}
 	}
